@@ -221,6 +221,11 @@ def observe_consumers(broker):
             log.append(("deliver", r[0].id_, self.queue_name))
             return r
 
+        async def __anext__(self):
+            r = await super().__anext__()
+            log.append(("handed-to-runner", r[0].id_, self.queue_name))
+            return r
+
     Observed.__name__ = base.__name__
     broker.CONSUMER_CLASS = Observed
     return log
